@@ -24,6 +24,7 @@ type Profile struct {
 	WClamp   int
 	WHist    int // histogram_quantile
 	WTs      int // timestamp(v)
+	WTwice   int // the same series read twice under different ranges / modifiers
 	// scalars
 	WNum    int
 	WTime   int
@@ -256,17 +257,30 @@ func (g *G) kParam(d int) string {
 	}
 	switch g.R.Intn(6) {
 	case 0:
-		return "scalar(" + g.Vector(0) + ")"
+		return "scalar(" + g.paramSelector() + ")"
 	case 1:
 		return g.Scalar(d - 1)
 	}
 	return g.oneOf("1", "2", "3", "5")
 }
 
+// paramSelector: the selector inside an aggregation parameter; pinned with @ more often than
+// elsewhere (the parameter is not made step-invariant by the preprocessor).
+func (g *G) paramSelector() string {
+	if g.R.Intn(3) == 0 {
+		save := g.P
+		g.P.PAt = 1
+		s := g.Selector()
+		g.P = save
+		return s
+	}
+	return g.Selector()
+}
+
 func (g *G) qParam(d int) string {
 	if g.P.Weird && g.R.Intn(3) == 0 {
 		if g.R.Intn(4) == 0 {
-			return "scalar(" + g.Selector() + ")" // NaN at the steps where the vector is not a singleton
+			return "scalar(" + g.paramSelector() + ")" // NaN at the steps where the vector is not a singleton
 		}
 		return g.weirdNum()
 	}
@@ -305,7 +319,7 @@ func (g *G) Vector(d int) string {
 		}
 		return g.Selector()
 	}
-	switch g.pick(p.WSel, p.WRangeFn, p.WInstFn, p.WAggr, p.WKAggr, p.WBinVV, p.WBinVS, p.WUnary, p.WParen, p.WVecOf, p.WClamp, p.WHist, p.WTs) {
+	switch g.pick(p.WSel, p.WRangeFn, p.WInstFn, p.WAggr, p.WKAggr, p.WBinVV, p.WBinVS, p.WUnary, p.WParen, p.WVecOf, p.WClamp, p.WHist, p.WTs, p.WTwice) {
 	case 0:
 		return g.Selector()
 	case 1:
@@ -385,8 +399,44 @@ func (g *G) Vector(d int) string {
 		return fmt.Sprintf("histogram_quantile(%s, %s)", g.qParam(d), inner)
 	case 12:
 		return fmt.Sprintf("timestamp(%s)", g.Vector(d-1))
+	case 13:
+		return g.Twice()
 	}
 	return g.Selector()
+}
+
+// Twice: one selector core read twice in one query, under the same function with different
+// ranges, or bare with different modifiers. Selections are cached per query by matchers, time
+// range and hints; this is the shape in which a too-coarse key shows.
+func (g *G) Twice() string {
+	core := g.metric() + g.matchers()
+	if strings.HasPrefix(core, "{") {
+		core = "m1"
+	}
+	op := g.oneOf("+", "-", "/", "*", "==", ">", "<=", "- on ()", "+ ignoring (a)")
+	if g.R.Intn(2) == 0 {
+		f := RangeFns[g.R.Intn(len(RangeFns))]
+		r1, r2 := g.rangeMs(), g.rangeMs()
+		for tries := 0; r1 == r2 && tries < 5; tries++ {
+			r2 = g.rangeMs()
+		}
+		m1, m2 := "", ""
+		if g.R.Intn(3) == 0 {
+			m1 = g.modifiers()
+		}
+		if g.R.Intn(3) == 0 {
+			m2 = g.modifiers()
+		}
+		return fmt.Sprintf("%s(%s[%s]%s) %s %s(%s[%s]%s)", f, core, dur(r1), m1, op, f, core, dur(r2), m2)
+	}
+	save := g.P
+	g.P.POffset, g.P.PAt = 0.6, 0.6
+	a, b := core+g.modifiers(), core+g.modifiers()
+	g.P = save
+	if g.R.Intn(3) == 0 {
+		b = core
+	}
+	return fmt.Sprintf("%s %s %s", a, op, b)
 }
 
 // atomV: a vector expression that binds tighter than unary minus.
